@@ -1090,3 +1090,74 @@ class P(Prop):
                     for k in range(len(r["prot"])):
                         nr = dict(r, prot=r["prot"][:k] + r["prot"][k + 1 :])
                         yield dict(case, files=files[:fi] + [rows[:i] + [nr] + rows[i + 1 :]] + files[fi + 1 :])
+
+
+# ---- command lines with `--do_quant --skip_lfq` (MaxQuant methods): the real `picked_group_fdr.main(argv)` in-process against
+# the composed Lean model PgFdr.CliQuant.quantOutcome (driver op "cli_quant", lean/PgFdr/Model/CliQuant.lean); the written
+# proteinGroups.txt is compared cell by cell with the model, and the recomputation above (`recompute`) is applied to it:
+# evidence rows through the harness's own digest of the FASTA, the groups the inference returned, the command line's
+# --psm_fdr_cutoff, the harness's own iBAQ peptide numbers (harness/cli_model.py, notes/cli-model.md, notes/C12.md)
+import cli_model as _cm  # noqa: E402
+
+_BaseP = P
+
+
+def quant_abstract(case, name, rec, ibaq_rule=None):
+    """the abstract C12 case of one method of a quantification command line (None: not stated, semi-specific digestion)"""
+    files = _cm.quant_evidence_truth(case, name)
+    if files is None:
+        return None
+    groups = [r["proteinIds"].split(";") for r in rec.get("rows", [])]
+    n = _cm.truth_ibaq(case, ibaq_rule)
+    prots = sorted({p for g in groups for p in g})
+    lay = case["quant"]["layout"]
+    return {"files": files, "groups": groups, "level": case["psm"], "ibaq": [[p, n.get(p, 0)] for p in prots],
+            "layout": {"silac": lay["silac"], "tmt": lay["tmt"], "has_experiment": True, "has_fraction": lay["has_fraction"]}}
+
+
+def written_quant_rows(text):
+    hdr, rows = _cm.read_table(text)
+    if len(set(hdr)) != len(hdr):
+        return {"err": "duplicate_headers"}
+    out = []
+    for line in rows:
+        if len(line) != len(hdr):
+            return {"err": "ragged", "headers": len(hdr), "values": len(line)}
+        d = dict(zip(hdr, line))
+        out.append({"ids": d.get("Protein IDs"), "cols": {h: v for h, v in d.items() if not is_unmodelled_header(h)}})
+    return {"rows": out}
+
+
+class P(_cm.QuantCliMixin, _BaseP):
+    cli_model_share = 0.025
+    rule = _BaseP.rule + (
+        "; 2.5 % of the cases are whole command lines `python -m picked_group_fdr --do_quant --skip_lfq` run in-process "
+        "(harness/cli_model.py gen_quant_case: 1-3 shipped MaxQuant methods, 1-3 evidence files, 1-3 digestion parameter sets, "
+        "three identifier rules, 1-3 experiments, optional fractions, charges 2-3, match-between-runs and re-identified sibling "
+        "rows, integer intensities, label free / SILAC 2 / SILAC 3 / TMT 2) whose written proteinGroups.txt is compared cell by "
+        "cell with the composed model PgFdr.CliQuant.quantRun and with the recomputation"
+    )
+    assumptions = _BaseP.assumptions + [
+        "command-line cases: integer intensities below 2^53 (float sums exact); a running PEP mean within 1e-9 (relative) of "
+        "--psm_fdr_cutoff is a near tie (skipped, counted); the iBAQ peptide numbers are those under the identifier rule the code "
+        "uses (first word of the header; fixes/C12-ibaq-identifier-rule.md)",
+    ]
+    trusted_extra = _BaseP.trusted_extra + [
+        "harness/cli_model.py: rendering of the quantification cells into evidence.txt, '%.0f' / '%.1f' formatting of the model's "
+        "rationals (fmt0, format_quant_cell), the harness's own digest (truth_map) and iBAQ count (truth_ibaq) used by the oracle",
+        "stage models composed by PgFdr.Cli / PgFdr.CliQuant (C06, C09, C10, C13, C18, C19), tied to the code by their own checks",
+    ]
+    # identifiers of the iBAQ peptide numbers the recomputation uses: cli_model.QUANT_IBAQ_RULE ("first" = first word of the
+    # FASTA header, which is what writers/factory.py asks the digest for whatever --fasta_use_uniprot_id / --gene_level say;
+    # "run" = the run's identifier rule, see notes/C12.md and fixes/C12-ibaq-identifier-rule.md)
+    quant_ibaq_rule = None
+
+    def quant_table_oracle(self, case, name, rec, text):
+        abstract = quant_abstract(case, name, rec or {}, self.quant_ibaq_rule)
+        if abstract is None:
+            return None
+        if self._near_tie(abstract):
+            return None
+        want = table_from_view(round_quotients(recompute(abstract)))
+        d = first_diff(want, written_quant_rows(text), "table")
+        return ("the quantification columns differ from the recomputation from the evidence rows (expected vs written) at " + d) if d else None
